@@ -26,6 +26,10 @@ runs_for() { case "$1" in decoders) echo ${VERIF_FUZZ_RUNS:-300000};; fieldconv)
 maxlen_for() { case "$1" in decoders) echo 320;; fieldconv) echo 300;; fieldops) echo 1500;; program) echo 300;; tower) echo 1200;; profile) echo 1600;; esac; }
 
 cd "$H" || exit 2
+# the release harness re-executes artifacts: make sure it is built from the current /repo tree as well
+if ! flock "$H/target/.build.lock" cargo build --offline --profile release >"$H/target/build-release.log" 2>&1; then
+  echo "INCONCLUSIVE: harness build failed; see $H/target/build-release.log"; exit 2
+fi
 LOG=$FZ/target/build.log; mkdir -p $FZ/target
 if ! RUSTFLAGS="--cfg john_yu_sm9_core_verif" flock $FZ/target/.lock cargo +nightly fuzz build --fuzz-dir $FZ -s none >"$LOG" 2>&1; then
   echo "INCONCLUSIVE: fuzz build failed; see $LOG"; grep -E "^error" -A6 "$LOG" | head -30; exit 2
